@@ -123,7 +123,9 @@ def _dom(tier):
 
 
 UC_EXTRA_CTX = [{"a": [0]}, {"a": {"b": [0]}}, {"a": {"a": {"a": 0}}}, {"a": {"b": {"a": [0]}}, "b": ""},
-                {"a": None}, {"a": "c", "b": {"a": None}}, {"a": {"b": {"a": {"a": 1}}}}]
+                {"a": None}, {"a": "c", "b": {"a": None}}, {"a": {"b": {"a": {"a": 1}}}},
+                # a scalar that reads like the next component of an addressed key (a.b is missing there)
+                {"a": "b"}, {"a": {"b": "a"}, "b": "a"}]
 UC_DEFAULTS = [[], [None], [0], [{"a": [0]}]]
 UC_BAD_CTXVALUE = ["x{{a}}", "{{a}}{{b}}", "{{}}", "a", "{{a}}x", "{{a}"]
 
